@@ -8,7 +8,7 @@
    correspondence check evaluates on the IMPLEMENTATION's observation. *)
 From Coq Require Import Floats.
 From Boltons Require Import Lib.Prelude Lib.C15_Float Spec.C15_Spec Model.C15_Model
-  Proofs.C15_Proofs Proofs.C15_ZInstance Proofs.C15_Prim Proofs.C15_Stall Check.C15_Check Proofs.C15_Tie.
+  Proofs.C15_Proofs Proofs.C15_ZInstance Proofs.C15_Prim Proofs.C15_Stall Check.C15_Check Proofs.C15_Tie Gen.C15_Src Proofs.C15_SrcEq.
 
 (* ---- main theorem: the model refines the Spec --------------------------------- *)
 (* For all parameters (valid or not), both entry points, all counts, all jitter
@@ -329,6 +329,29 @@ Theorem C15_binary64_default_count_iter_complete :
                                 else ideal prim_ops stop factor start (length (o_vals o))) = true))).
 Proof. exact binary64_default_count_iter_complete. Qed.
 Print Assumptions C15_binary64_default_count_iter_complete.
+
+(* ---- (T) tie: the source of backoff_iter, regenerated on this run, is the model ----------------------
+   Gen/C15_Src.v is produced from /repo's current boltons/iterutils.py by
+   harness/translators/c15_src.py (fail closed).  Every piece of backoff_iter equals the model
+   function the theorems above are about; the main loop starts at (start, 0) and makes exactly
+   max(0, count) turns, for ever for 'repeat'. *)
+Theorem C15_source_matches_model :
+  forall (F : Type) (fo : fops F),
+    (forall fuel start stop factor c jitter,
+       src_prepare fo fuel start stop factor c jitter = prepare fo fuel start stop factor c jitter) /\
+    (forall fuel stop factor cur n,
+       src_count_loop fo fuel stop factor n cur = default_count fo fuel stop factor cur n) /\
+    (forall jit jitter cur r, src_emit fo jit jitter cur r = emit fo jit jitter cur r) /\
+    (forall stop factor cur, src_step fo stop factor cur = step fo stop factor cur) /\
+    (forall start : F, src_init start = (start, 0%Z)) /\
+    (forall z k, src_continue (NFin z) (Z.of_nat k) = true <-> (k < Z.to_nat z)%nat) /\
+    (forall i, src_continue NInf i = true).
+Proof.
+  intros F fo.
+  exact (conj (src_prepare_eq fo) (conj (src_count_loop_eq fo) (conj (src_emit_eq fo)
+        (conj (src_step_eq fo) (conj src_init_eq (conj src_continue_turns src_continue_repeat)))))).
+Qed.
+Print Assumptions C15_source_matches_model.
 
 (* ---- soundness of the correspondence verdict ----------------------------------------------------
    For every case the check evaluates: if its [agree] bit is true (the implementation's observation
